@@ -37,6 +37,37 @@ class Mode:
     def pts(self, qs):
         return [self.pt(q) for q in qs]
 
+    def unnum(self, x):      # inverse maps (identity except in the huge-rational mode)
+        return x
+
+    def unpt(self, x):
+        return x
+
+
+class HugeMode(Mode):
+    """huge rationals: knots and parameters are mapped by u -> S u + A, control points and weights by x -> M x with
+    80-bit S, A, M.  By the lemmas ReparamInvariant and linearity (checked by TLC in MC_Oracle) the curve over the
+    mapped data at S u + A is M times the curve at u, so the small spec state is still the oracle; intermediates
+    overflow 64 bits everywhere."""
+    name = "huge"
+    S = Fraction(2 ** 80 + 13, 3 ** 40 + 2)
+    A = Fraction(-(5 ** 30) - 7, 2 ** 61 - 1)
+    M = Fraction(7 ** 28 + 1, 11 ** 19)
+
+    def num(self, q):
+        if list(q) == NAN:
+            return "not-a-number"
+        return self.S * fr(q) + self.A
+
+    def pt(self, q):
+        return self.M * fr(q)
+
+    def unnum(self, x):
+        return (x - self.A) / self.S
+
+    def unpt(self, x):
+        return x / self.M
+
 
 class IntMode(Mode):
     """Fraction knots and parameters, int control points and weights where the value is integral
@@ -99,7 +130,7 @@ class MinPointMode(Mode):
         return MinPt(fr(q))
 
 
-MODES = {"minimal-point": MinPointMode, "fraction": Mode, "int": IntMode, "float": FloatMode, "numpy.float64": NpFloatMode}
+MODES = {"huge": HugeMode, "minimal-point": MinPointMode, "fraction": Mode, "int": IntMode, "float": FloatMode, "numpy.float64": NpFloatMode}
 
 
 def classify(exc):
@@ -204,14 +235,15 @@ class Replayer:
             return {"kind": "none"}
         if isinstance(obj, dict):
             return obj
+        m = self.mode
         if isinstance(obj, self.KnotVector):
-            return {"kind": "kv", "U": [self.num_out(x) for x in obj]}
+            return {"kind": "kv", "U": [self.num_out(m.unnum(x)) for x in obj]}
         if isinstance(obj, self.Curve):
             P = obj.ctrlpoints
             W = obj.weights
-            return {"kind": "cv", "U": [self.num_out(x) for x in obj.knotvector],
-                    "P": None if P is None else [self.num_out(x) for x in P],
-                    "W": [] if W is None else [self.num_out(x) for x in W]}
+            return {"kind": "cv", "U": [self.num_out(m.unnum(x)) for x in obj.knotvector],
+                    "P": None if P is None else [self.num_out(m.unpt(x)) for x in P],
+                    "W": [] if W is None else [self.num_out(m.unpt(x)) for x in W]}
         raise core.MachineryError(f"cannot project {type(obj)}")
 
     def same_nums(self, got, want):
@@ -1152,7 +1184,7 @@ class Replayer:
 
     def _point_ok(self, got, want):
         try:
-            g = self.num_out(got)
+            g = self.num_out(self.mode.unpt(got))
         except TypeError:
             return False, f"inexact value {got!r} ({type(got).__name__}) from exact data"
         if self.mode.exact:
